@@ -189,14 +189,58 @@ def resolve(world, step):
     return out
 
 
+class InjectedCrash(Exception):
+    """Raised by the simulator at the N-th executed line of praatio code inside one
+    call (step key "crash_at"): an asynchronous failure (interrupt, allocation
+    failure) at an arbitrary point.  Observation only - no listed property covers it."""
+
+
+_PRAATIO_DIR = None
+
+
+def _crashing_tracer(n):
+    import os
+    import sys
+
+    global _PRAATIO_DIR
+    if _PRAATIO_DIR is None:
+        import praatio
+
+        _PRAATIO_DIR = os.path.dirname(praatio.__file__)
+    left = [n]
+
+    def local(frame, event, arg):
+        if event == "line":
+            left[0] -= 1
+            if left[0] <= 0:
+                sys.settrace(None)
+                raise InjectedCrash(f"simulated crash at {os.path.basename(frame.f_code.co_filename)}:{frame.f_lineno}")
+        return local
+
+    def glob(frame, event, arg):
+        if event == "call" and frame.f_code.co_filename.startswith(_PRAATIO_DIR):
+            return local
+        return None
+
+    return glob
+
+
 def invoke(world, out):
     """Run the real call.  Only Exception is caught: KeyboardInterrupt,
     SystemExit, MemoryError-as-BaseException etc. propagate to the driver."""
+    import sys
     from .world import SINK
 
     before = SINK.lines
+    crash_at = out.step.get("crash_at")
     try:
-        out.result = out.op.fn(world, out.recv, out.args, out.kwargs)
+        if crash_at:
+            sys.settrace(_crashing_tracer(crash_at))
+        try:
+            out.result = out.op.fn(world, out.recv, out.args, out.kwargs)
+        finally:
+            if crash_at:
+                sys.settrace(None)
         out.ok = True
     except Exception as e:  # noqa: BLE001 - the outcome *is* the exception
         out.exc = e
